@@ -163,6 +163,121 @@ fn c17a_origin_set_runs_v4() {
     std::mem::forget(b);
 }
 
+//------------ C17(f): radix-tree LOOKUP on small trees of arbitrary prefixes ----
+//
+// Building the tree under the engine did not fit (DESIGN §1), but the lookup
+// (`eq_or_more_specific` = `TreeIter::more_specific` + `TreeIter::next`) does
+// when the tree is given: the harness lays out a tree of a fixed SHAPE whose
+// prefixes are arbitrary values constrained only by the invariant the builder
+// documents (child covered by parent, left/right decided by the bit at the
+// parent's length, data sorted), asks for an arbitrary prefix Q, and expects
+// exactly the data prefixes Q covers, in tree order.
+
+fn ro(p: Ipv4Prefix) -> RouteOrigin<Ipv4Prefix> {
+    RouteOrigin { prefix: p, origin: AsNumber::from_u32(kani::any()) }
+}
+
+fn tidx(i: usize) -> TreeIndex { TreeIndex(i as u32) }
+
+fn collect3(c: &RouteOriginCollection<Ipv4Prefix>, q: Ipv4Prefix) -> ([Ipv4Prefix; 3], usize) {
+    let mut out = [Ipv4Prefix::default(); 3];
+    let mut n = 0;
+    let mut it = c.eq_or_more_specific(q);
+    let mut guard = 0;
+    while guard < 4 {
+        match it.next() {
+            Some(set) => {
+                assert!(n < 3);
+                assert!(set.iter().count() == 1);
+                out[n] = set.prefix();
+                n += 1;
+            }
+            None => break,
+        }
+        guard += 1;
+    }
+    assert!(it.next().is_none());
+    std::mem::forget(it);
+    (out, n)
+}
+
+/// Shape 1: root 0/0 (no data) -> left A -> left C (nested), right B.
+// vk: bound=tree of fixed shape (root, A, C under A, B) with arbitrary v4 prefixes satisfying the builder's invariant; arbitrary query prefix
+#[kani::proof]
+#[kani::unwind(6)]
+fn x17f_tree_lookup_nested_v4() {
+    let (a, b, c) = (any_v4(), any_v4(), any_v4());
+    kani::assume(a.addr_len() >= 1 && !a.bit(0));
+    kani::assume(b.addr_len() >= 1 && b.bit(0));
+    kani::assume(a.covers(c) && c.addr_len() > a.addr_len() && !c.bit(a.addr_len()));
+    // data sorted: a < c < b (same leading bits: a before its more specific c; b has bit 0 set)
+    let coll = RouteOriginCollection {
+        tree: Box::new([
+            TreeNode::new(DataIndex::data(1).unwrap()),                                   // 0: C
+            TreeNode::with_children(DataIndex::data(0).unwrap(), tidx(0), TreeIndex::none()), // 1: A
+            TreeNode::new(DataIndex::data(2).unwrap()),                                   // 2: B
+            TreeNode::with_children(DataIndex::no_data(0).unwrap(), tidx(1), tidx(2)),    // 3: root
+        ]),
+        tree_root_idx: tidx(3),
+        data: RouteOriginBox(Box::new([ro(a), ro(c), ro(b)])),
+        no_data: Box::new([Ipv4Prefix::default()]),
+    };
+    let q = any_v4();
+    let (got, n) = collect3(&coll, q);
+    let mut want = [Ipv4Prefix::default(); 3];
+    let mut m = 0;
+    if q.covers(a) { want[m] = a; m += 1; }
+    if q.covers(c) { want[m] = c; m += 1; }
+    if q.covers(b) { want[m] = b; m += 1; }
+    assert!(n == m);
+    let mut i = 0;
+    while i < m { assert!(got[i] == want[i]); i += 1; }
+    kani::cover!(m == 3);
+    kani::cover!(m == 2 && q.addr_len() > 0);
+    kani::cover!(m == 1 && q.covers(c));
+    kani::cover!(m == 1 && q.covers(b));
+    kani::cover!(m == 0 && a.covers(q));
+    std::mem::forget(coll);
+}
+
+/// Shape 2: root 0/0 (no data) -> left X (no data, the closest ancestor of A
+/// and B) -> left A, right B.
+// vk: bound=tree of fixed shape (root, intermediate no-data node X, A and B under X) with arbitrary v4 prefixes satisfying the builder's invariant; arbitrary query prefix
+#[kani::proof]
+#[kani::unwind(6)]
+fn x17f_tree_lookup_intermediate_v4() {
+    let (a, b) = (any_v4(), any_v4());
+    let x = a.closest_ancestor(b);
+    kani::assume(x.addr_len() >= 1 && !x.bit(0));
+    kani::assume(x.addr_len() < a.addr_len() && x.addr_len() < b.addr_len());
+    kani::assume(!a.bit(x.addr_len()) && b.bit(x.addr_len()));
+    let coll = RouteOriginCollection {
+        tree: Box::new([
+            TreeNode::new(DataIndex::data(0).unwrap()),                                // 0: A
+            TreeNode::new(DataIndex::data(1).unwrap()),                                // 1: B
+            TreeNode::with_children(DataIndex::no_data(1).unwrap(), tidx(0), tidx(1)), // 2: X
+            TreeNode::with_children(DataIndex::no_data(0).unwrap(), tidx(2), TreeIndex::none()), // 3: root
+        ]),
+        tree_root_idx: tidx(3),
+        data: RouteOriginBox(Box::new([ro(a), ro(b)])),
+        no_data: Box::new([Ipv4Prefix::default(), x]),
+    };
+    let q = any_v4();
+    let (got, n) = collect3(&coll, q);
+    let mut want = [Ipv4Prefix::default(); 3];
+    let mut m = 0;
+    if q.covers(a) { want[m] = a; m += 1; }
+    if q.covers(b) { want[m] = b; m += 1; }
+    assert!(n == m);
+    let mut i = 0;
+    while i < m { assert!(got[i] == want[i]); i += 1; }
+    kani::cover!(m == 2 && q.addr_len() > 0);
+    kani::cover!(m == 1 && q.covers(b));
+    kani::cover!(m == 1 && q.covers(a) && q != a);
+    kani::cover!(m == 0 && x.covers(q));
+    std::mem::forget(coll);
+}
+
 #[cfg(test)]
 #[path = "/verif/.cache/playback/server_bgp_riswhois.rs"]
 mod playback;
